@@ -14,6 +14,8 @@ _PR = "parquet/src/file/metadata/reader.rs"
 _IL = "arrow-ipc/src/lib.rs"
 _IR = "arrow-ipc/src/reader.rs"
 _IW = "arrow-ipc/src/writer.rs"
+# "anything that contains no bare `.write(` call", lazily
+_NW = r"(?:(?!\.write\().)*?"
 
 CONSTANTS = {
     "C18": [
@@ -33,6 +35,46 @@ CONSTANTS = {
          r"fn\s+parse_metadata.{0,400}?if\s+file_size\s*<\s*\(FOOTER_SIZE\s+as\s+u64\)\s*\{\s*return\s+Err\(ParquetError::NeedMoreData\(FOOTER_SIZE\)\)\s*;\s*\}"
          r"\s*let\s+mut\s+footer\s*=\s*\[(0_u8);\s*FOOTER_SIZE\]\s*;.{0,400}?let\s+footer_metadata_len\s*=\s*FOOTER_SIZE\s*\+\s*metadata_len\s*;"
          r".{0,200}?if\s+footer_metadata_len\s+as\s+u64\s*>\s*file_size\s*\{\s*return\s+Err\(ParquetError::NeedMoreData\(footer_metadata_len\)\)\s*;\s*\}", "int"),
+        # ---- source shape of the modelled write paths: every byte goes through `write_all`
+        # (tempered patterns: no bare `.write(` may occur inside the matched function body; the
+        # captured number is irrelevant -- the theorems use `*_lost = false` only)
+        # FileWriter::finish: EOS, footer, footer length, magic, flush, then finished = true
+        ("SHAPE_FILE_FINISH", _IW,
+         r"Cannot write footer to file writer as it is closed" + _NW + r"self\.writer\.write_eos\(&self\.write_options\)\?;" + _NW +
+         r"self\.writer\.write_all\(footer_data\)\?;\s*self\.writer\s*\.write_all\(&\(footer_data\.len\(\) as i(32)\)\.to_le_bytes\(\)\)\?;"
+         r"\s*self\.writer\.write_all\(&super::ARROW_MAGIC\)\?;\s*self\.writer\.flush\(\)\?;\s*self\.finished = true;", "int"),
+        # StreamWriter::finish: EOS, flush, then finished = true
+        ("SHAPE_STREAM_FINISH", _IW,
+         r"Cannot write footer to stream writer as it is closed" + _NW + r"self\.writer\.write_eos\(&self\.write_options\)\?;" + _NW +
+         r"self\.writer\.flush\(\)\?;\s*self\.finished = true;.*?(\d+)", "int"),
+        # FileWriter::try_new_with_options: leading magic + padding
+        ("SHAPE_FILE_HEADER", _IW,
+         r"writer\.write_all\(&super::ARROW_MAGIC\)\?;\s*writer\.write_all\(&PADDING\[\.\.pad_len\]\)\?;.*?(\d+)", "int"),
+        # write_continuation: one write_slice of the 4/8 byte prefix
+        ("SHAPE_WRITE_CONTINUATION", _IW,
+         r"fn write_continuation\(" + _NW + r"self\.write_slice\(&buffer\[\.\.len\]\)\s*\}.*?(\d+)", "int"),
+        # write_encoded_data (= write_message) and write_eos
+        ("SHAPE_WRITE_ENCODED", _IW,
+         r"fn write_encoded_data\(" + _NW + r"self\.write_continuation\(write_options, layout\.padded_metadata_len as i(32)\)\?;\s*self\.write_vec\(metadata\)\?;"
+         r"\s*self\.write_padding\(layout\.metadata_padding\)\?;" + _NW + r"self\.write_body_data\(encoded\.arrow_data, write_options\.alignment\)\?" + _NW +
+         r"fn write_eos\(" + _NW + r"self\.write_continuation\(write_options, 0\)\?;", "int"),
+        # the `W: Write` sink: write_slice is write_all; write_record_batch writes with write_all only
+        ("SHAPE_WRITE_SLICE", _IW,
+         r"impl<W> IpcMessageSink for W\s*where\s*W: Write,\s*\{\s*fn write_slice\(&mut self, bytes: &\[u8\]\) -> Result<\(\), ArrowError> \{"
+         r"\s*if !bytes\.is_empty\(\) \{\s*self\.write_all\(bytes\)\?;\s*\}\s*Ok\(\(\)\)\s*\}\s*\}.*?(\d+)", "int"),
+        ("SHAPE_WRITE_RECORD_BATCH", _IW,
+         r"impl<W> IpcRecordBatchSink for W\s*where\s*W: Write,\s*\{\s*fn write_record_batch\(" + _NW +
+         r"self\.write_continuation\(write_options, layout\.padded_metadata_len as i(32)\)\?;\s*self\.write_all\(&metadata\)\?;" + _NW +
+         r"self\.write_all\(&PADDING\[\.\.tail_pad\]\)\?;\s*Ok\(", "int"),
+        # Parquet: footer length + magic, and the leading magic
+        ("SHAPE_PARQUET_FOOTER", "parquet/src/file/metadata/writer.rs",
+         r"let metadata_len = \(end_pos - start_pos\) as u(32);\s*self\.buf\.write_all\(&metadata_len\.to_le_bytes\(\)\)\?;"
+         r"\s*self\.buf\.write_all\(self\.object_writer\.get_file_magic\(\)\)\?;", "int"),
+        ("SHAPE_PARQUET_HEADER", "parquet/src/file/writer.rs",
+         r"fn start_file\(_properties: &WriterPropertiesPtr, buf: &mut TrackedWrite<W>\) -> Result<\(\)> \{\s*buf\.write_all\(get_file_magic\(\)\)\?;.*?(\d+)", "int"),
+        # TrackedWrite::write_all delegates to the inner write_all and counts the whole buffer
+        ("SHAPE_TRACKED_WRITE_ALL", "parquet/src/file/writer.rs",
+         r"fn write_all\(&mut self, buf: &\[u8\]\) -> std::io::Result<\(\)> \{\s*self\.inner\.write_all\(buf\)\?;\s*self\.bytes_written \+= buf\.len\(\);.*?(\d+)", "int"),
         # ---- IPC
         ("CONTINUATION_BYTE", _IL,
          r"const\s+CONTINUATION_MARKER\s*:\s*\[u8;\s*4\]\s*=\s*\[\s*(0x[0-9a-fA-F]+|\d+)\s*;\s*4\s*\]\s*;", "int"),
